@@ -18,6 +18,7 @@ void venv_script(const uint8_t *b, size_t n) { vs.script = b; vs.scriptlen = n; 
 void venv_fail_at(long i) { vs.fail_at = i; }
 void venv_fail_from(long i) { vs.fail_from = i; }
 void venv_ff_at(long i) { vs.ff_at = i; }
+void venv_ff_window(long i, long n) { vs.ff_at = i; vs.ff_count = n; }
 void venv_set_time(time_t t) { vnow = t; }
 time_t venv_get_time(void) { return vnow; }
 
@@ -33,7 +34,7 @@ int getentropy(void *buf, size_t len)
 	long idx = vs.draws++;
 	if (idx == vs.fail_at || (vs.fail_from >= 0 && idx >= vs.fail_from)) { vs.failed++; if (venv_fail_hook) venv_fail_hook(); errno = EIO; return -1; }
 	for (size_t i = 0; i < len; i++) {
-		if (idx == vs.ff_at) { o[i] = 0xff; continue; }
+		if (idx == vs.ff_at || (vs.ff_count > 0 && vs.ff_at >= 0 && idx >= vs.ff_at && idx < vs.ff_at + vs.ff_count)) { o[i] = 0xff; continue; }
 		if (vs.scriptpos < vs.scriptlen) o[i] = vs.script[vs.scriptpos++];
 		else { uint64_t w = mix(vs.key ^ mix(vs.ctr >> 3)); o[i] = (uint8_t)(w >> (8 * (vs.ctr & 7))); vs.ctr++; }
 	}
